@@ -291,6 +291,13 @@ func RunHarness(p *Program, cfg *Config, fn *ssa.Function) *Stats {
 				e.St.Queries = s.Queries
 				e.St.SolverTime = s.Time
 				e.St.SolverErrors = s.Errors
+				if s.LastError != "" {
+					msg := s.LastError
+					if len(msg) > 160 {
+						msg = msg[:160]
+					}
+					e.St.Limits["solver error, e.g.: "+msg]++
+				}
 				s.Close()
 			}
 			mu.Lock()
@@ -625,6 +632,11 @@ func (e *Exec) assume(c *term.Term, side bool) {
 	e.pcLit[c.ID] = side
 	// mirror into the solver's assertion stack (one scope per literal); a replayed prefix that
 	// is already asserted is left in place, so the solver keeps what it learned about it
+	if e.S.Broken {
+		e.pc = e.pc[:len(e.pc)-1]
+		e.resync()
+		e.pc = append(e.pc, lit)
+	}
 	i := len(e.pc) - 1
 	if i < len(e.asserted) {
 		if e.asserted[i] == lit {
@@ -646,9 +658,28 @@ func (e *Exec) syncSolver() {
 	}
 }
 
+// resync rebuilds the solver's assertion stack from the path condition after a restart.
+func (e *Exec) resync() {
+	e.S.Restart()
+	e.asserted = e.asserted[:0]
+	for _, lit := range e.pc {
+		e.S.Push()
+		e.S.Assert(lit)
+		e.asserted = append(e.asserted, lit)
+	}
+}
+
 func (e *Exec) check(extra *term.Term) smt.Result {
+	if e.S.Broken {
+		e.resync()
+	}
 	e.syncSolver()
 	r := e.S.CheckAssuming(extra)
+	if e.S.Broken {
+		// the resource limit was hit: the context is unusable until restarted; the answer stays unknown
+		e.resync()
+		r = smt.Unknown
+	}
 	if r == smt.Unknown {
 		e.St.Unknowns++
 	}
@@ -939,6 +970,10 @@ func (e *Exec) evalInputs(m map[string]uint64) []InputVal {
 func (e *Exec) recordViolation(kind, msg string, m map[string]uint64) {
 	if m == nil {
 		m, _ = e.solveModel(nil) // need a model of the path condition
+		if m == nil && len(e.vars) > 0 {
+			e.St.Limits["counterexample candidate dropped: no model could be produced ("+kind+": "+msg+")"]++
+			return
+		}
 	}
 	v := Violation{Harness: e.harness, Kind: kind, Msg: msg, Inputs: e.evalInputs(m), Path: e.pathString(), Tags: append([]string{}, e.tags...)}
 	if len(e.St.Violations) < 50 {
